@@ -277,3 +277,94 @@ class window_when:
         s.cur.on_error(e)
         s.term = True
         out.on_error(e)
+
+
+class group_join:
+    """group_join(right, left_duration, right_duration) applied to `left` (source 0; `right` is source 1).  Every left element
+    opens a window (a subject; the pair (element, shared observable of the window) is handed downstream) that lives until the
+    observable left_duration(element) first emits or completes; every right element is sent to every open window and is retained
+    until right_duration(element) first emits or completes - a window opened meanwhile is sent what is retained, in arrival
+    order, right when it is opened.  An error of either source, of a duration or of a duration function ends every open window
+    and the output.  The completion of the LEFT source ends the output - the open windows are left as they are; the completion of
+    the right source is ignored (this is the real operator's contract, also what window_toggle inherits: known finding of C18)."""
+
+    def init(s):
+        s.windows = {}
+        s.held = {}
+        s.nl = 0
+        s.nr = 0
+        s.term = False
+
+    def done(s):
+        return s.term
+
+    def valid(s):
+        return s.nl >= 0 and s.nr >= 0
+
+    def fail(s, out, e):
+        for w in list(s.windows.values()):
+            w.on_error(e)
+        s.term = True
+        out.on_error(e)
+
+    def on_next(s, out, i, x):
+        if i == 0:
+            w = out.new_subject()
+            k = s.nl
+            s.nl += 1
+            s.windows[k] = w
+            out.on_next((x, out.share(w)))
+            for v in list(s.held.values()):
+                w.on_next(v)
+            try:
+                d = s.left_duration_mapper(x)
+            except Exception as e:
+                s.fail(out, e)
+                return
+            out.subscribe(d)
+        else:
+            k = s.nr
+            s.nr += 1
+            s.held[k] = x
+            try:
+                d = s.right_duration_mapper(x)
+            except Exception as e:
+                s.fail(out, e)
+                return
+            out.subscribe(d)
+            for w in list(s.windows.values()):
+                w.on_next(x)
+
+    def on_error(s, out, i, e):
+        s.fail(out, e)
+
+    def on_completed(s, out, i):
+        if i == 0:
+            s.term = True
+            out.on_completed()
+
+    # the duration of the window number k
+    def close_window(s, out, k):
+        if k in s.windows:
+            w = s.windows[k]
+            del s.windows[k]
+            w.on_completed()
+
+    def ldur_next(s, out, k, _):
+        s.close_window(out, k)
+
+    def ldur_completed(s, out, k):
+        s.close_window(out, k)
+
+    def ldur_error(s, out, k, e):
+        s.fail(out, e)
+
+    # the duration of the retained right element number k
+    def rdur_next(s, out, k, _):
+        del s.held[k]
+
+    def rdur_completed(s, out, k):
+        del s.held[k]
+
+    def rdur_error(s, out, k, e):
+        s.fail(out, e)
